@@ -27,9 +27,9 @@ def annotate_type(rng, e, parent=None, p=0.5):
         e['args'] = [annotate_type(rng, a, e['prim'], p) if isinstance(a, dict) and 'prim' in a else a for a in e['args']]
     an = []
     if parent in ('pair', 'or') and rng.random() < p:
-        an.append('%' + rng.choice(['a', 'b', 'fld', 'x1', 'default', 'amount']))
+        an.append('%' + rng.choice(['a', 'b', 'fld', 'x1', 'default', 'amount', '']))      # '' = the bare annotation `%`
     if rng.random() < p / 3:
-        an.append(':' + rng.choice(['t', 'ty', 'storage']))
+        an.append(':' + rng.choice(['t', 'ty', 'storage', '']))
     if an:
         e['annots'] = an
     return e
@@ -123,7 +123,8 @@ def comb_programs(rng, n):
         v = G.gen_value(rng, t)
         idx = rng.randrange(k)
         nn = 2 * idx + 1 if idx < k - 1 else 2 * idx
-        kind = rng.choice(['GET n', 'UPDATE n', 'UNPAIR n', 'PACK', 'COMPARE', 'PACK;UNPACK', 'CAR/CDR', 'nested', 'field-then-None', 'field-then-None'])
+        kind = rng.choice(['GET n', 'UPDATE n', 'UNPAIR n', 'PACK', 'COMPARE', 'PACK;UNPACK', 'CAR/CDR', 'nested', 'field-then-None', 'field-then-None',
+                           'field-then-wrap', 'field-then-wrap', 'rebuild-then-compare', 'rebuild-then-compare', 'APPLY-capture'])
         if kind == 'GET n':
             code = [PUSH(t, v), I('GET', N(rng.choice([nn, rng.randint(0, 2 * k - 2)])))]
         elif kind == 'UPDATE n':
@@ -153,6 +154,38 @@ def comb_programs(rng, n):
             else:
                 code = [PUSH(T.pair(T.NAT, T.STRING), (1, 'x')), I('UNPAIR'), I('NIL', TY(T.NAT)), I('SWAP'), I('CONS'), I('SWAP'), I('SOME'), I('PAIR'),
                         I('NONE', TY(T.pair(T.list_(T.NAT), T.option(T.STRING)))), I('SWAP'), I('SOME'), I('PAIR')]
+        elif kind == 'field-then-wrap':
+            # a component taken out of an (annotated) pair, then wrapped into a fresh container, then serialised
+            take = rng.choice([[I('CAR')], [I('CDR')], [I('GET', N(nn))], [I('UNPAIR'), I('DROP')], [I('UNPAIR'), I('SWAP'), I('DROP')]])
+            ct = {'CAR': ts[0], 'CDR': T.pair(*ts[1:]) if k > 2 else ts[1]}.get(take[0]['prim']) if len(take) == 1 and take[0]['prim'] != 'GET' else None
+            if take[0]['prim'] == 'GET':
+                ct = ts[idx] if idx < k - 1 or nn % 2 else ts[idx]
+                if nn % 2 == 0 and idx < k - 1:
+                    ct = None
+            if len(take) == 2:
+                ct = (T.pair(*ts[1:]) if k > 2 else ts[1]) if take[1]['prim'] == 'DROP' else ts[0]
+            wrap = rng.choice(['SOME', 'LEFT', 'CONS', 'MAP-VALUE', 'PAIR'])
+            tail = {'SOME': [I('SOME')], 'LEFT': [I('LEFT', TY(T.NAT))], 'PAIR': [PUSH(T.NAT, 1), I('PAIR')]}.get(wrap)
+            if tail is None and ct is not None:
+                tail = [I('NIL', TY(ct)), I('SWAP'), I('CONS')] if wrap == 'CONS' else \
+                       [I('SOME'), I('EMPTY_MAP', TY(T.STRING), TY(ct)), I('SWAP'), PUSH(T.STRING, 'k'), I('UPDATE')]
+            code = [PUSH(t, v)] + take + (tail or [I('SOME')]) + ([I('PACK')] if rng.random() < 0.5 else [])
+        elif kind == 'rebuild-then-compare':
+            # the same value once as pushed and once rebuilt from its parts: equal for COMPARE, MEM and GET
+            inner = T.pair(rng.choice(leaf_types[:5]), rng.choice(leaf_types[:5]))
+            t3 = rng.choice([T.pair(inner, T.NAT), T.pair(T.NAT, inner), T.pair(inner, inner)])
+            v3 = G.gen_value(rng, t3)
+            rebuild = rng.choice([[I('UNPAIR'), I('PAIR')], [I('UNPAIR'), I('PAIR', N(2))], [I('DUP'), I('CAR'), I('UPDATE', N(1))]])
+            how = rng.choice(['COMPARE', 'MEM', 'GET'])
+            if how == 'COMPARE':
+                code = [PUSH(t3, v3), I('DUP')] + rebuild + [I('COMPARE')]
+            elif how == 'MEM':
+                code = [PUSH(T.set_(t3), [v3]), PUSH(t3, v3)] + rebuild + [I('MEM')]
+            else:
+                code = [PUSH(T.map_(t3, T.NAT), [(v3, 7)]), PUSH(t3, v3)] + rebuild + [I('GET')]
+        elif kind == 'APPLY-capture':
+            code = [I('LAMBDA', TY(T.pair(T.NAT, T.NAT)), TY(T.NAT), [I('UNPAIR'), I('ADD')]), PUSH(T.pair(T.NAT, T.STRING), (7, 'x')), rng.choice([I('CAR'), I('GET', N(1))]),
+                    I('APPLY'), I('DUP'), I('PACK'), I('SWAP'), PUSH(T.NAT, 3), I('EXEC'), I('PAIR')]
         elif kind == 'CAR/CDR':
             code = [PUSH(t, v), I('DUP'), I('CAR'), I('SWAP'), I('CDR'), I('PAIR')]
         else:
@@ -213,7 +246,7 @@ def judge_real(ctx, rng):
                 var.append(sec)
         runs = []
         for script in (c['code'], var):
-            with H.monitoring(step_limit=400000) as mon:
+            with H.monitoring(step_limit=60000, window=8, node_budget=6000000) as mon:
                 try:
                     out = Interpreter.run_code(parameter=arg, storage=storage, script=script, entrypoint=ep, **L.env_kwargs(env))
                 except H.HarnessAbort:
@@ -224,7 +257,7 @@ def judge_real(ctx, rng):
         ctx.count('real_contract_variants')
         ctx.case(('real', c['name'], ep, how, label), nontrivial=len(bm.events) >= 12)
         if bo is None or vo is None:
-            ctx.violation('C17|runaway', 'real contract %s' % label, case)
+            ctx.count('real_contract_runs_beyond_the_step_or_memory_budget')     # not judged
             continue
         div = L.first_divergence(bm.events, vm.events, 'values')
         if div is not None:
